@@ -378,3 +378,21 @@ func assert(ok bool) {
 		panic("illegal state")
 	}
 }
+
+// the ident naming the callee, e.g., Yield in co.Yield[int](1)
+func calleeIdent(fun ast.Expr) *ast.Ident {
+	switch x := fun.(type) {
+	case *ast.ParenExpr:
+		return calleeIdent(x.X)
+	case *ast.IndexExpr:
+		return calleeIdent(x.X)
+	case *ast.IndexListExpr:
+		return calleeIdent(x.X)
+	case *ast.SelectorExpr:
+		return x.Sel
+	case *ast.Ident:
+		return x
+	default:
+		return nil
+	}
+}
